@@ -5,7 +5,7 @@ ID = 'C10'
 LEDGER_FILES = ['a5/core/compact.py', 'a5/core/cell_info.py']
 MUST_ENTER = [('a5/core/compact.py', 'uncompact')]
 RULE = ('lists of 0..40 cells (repeats allowed, r in -1..29) and targets t in 0..29 with the per-cell expansion factor capped at 4^6; '
-        'world cell, aperture jumps, t=r identity, inputs finer than t (must raise), tuple arguments; oracle = hierarchy model '
+        'world cell, aperture jumps, t=r identity, index-adjacent sibling runs straddling two parents, returned lists scrambled and the call repeated, inputs finer than t (must raise), tuple arguments; oracle = hierarchy model '
         '(block i == descendants of input i, each mapping back through cell_to_parent). distinct = distinct (list, t); '
         'non-trivial = at least one input strictly coarser than t or an error case')
 ASSUMPTIONS = ['expansion factor bounded to keep outputs enumerable, as the quantifier states']
@@ -70,6 +70,19 @@ def eval_case(a5, cells, t, ctx, case):
         if n <= 4096 and set(block) != set(a5.cell_to_children(c, t)):
             ctx.fail('block_vs_children', case, cell=c)
         ctx.count('blocks_checked')
+    # hostile caller: scramble what was returned, then ask again
+    if ctx.rnd.random() < 0.3 and out:
+        keep = list(out)
+        out.reverse()
+        out.append(-1)
+        del out[0]
+        try:
+            again = a5.uncompact(cells, t)
+            ctx.count('scramble_and_repeat')
+            if again != keep:
+                ctx.fail('result_depends_on_mutated_earlier_result', case)
+        except Exception as e:
+            ctx.fail('raises', case, exc=repr(e))
 
 
 def make_case(rnd, a5, gen):
@@ -90,6 +103,18 @@ def make_case(rnd, a5, gen):
             lo = max(0, t - 6) if t > 6 else (0 if t > 4 else -1)
             r = rnd.randint(lo, t)
             cells.append(0 if r == -1 else gen.random_cell(rnd, a5, r))
+    if rnd.random() < 0.12 and t >= 2:
+        # index-adjacent cells of one resolution straddling two parents, then something finer / coarser at the end
+        r = rnd.randint(max(2, t - 3), t)
+        g = gen.random_cell(rnd, a5, r - 1)
+        kids = a5.cell_to_children(g)
+        nxt = a5.cell_to_children(gen.random_cell(rnd, a5, r - 1))
+        k = rnd.randint(1, 3)
+        cells = kids[k:] + nxt[:k] if rnd.random() < 0.5 else kids[k:] + a5.cell_to_children(a5.cell_to_children(a5.cell_to_parent(g))[-1])[:k]
+        if rnd.random() < 0.7:
+            cells.append(gen.random_cell(rnd, a5, rnd.randint(r, t)))
+        if rnd.random() < 0.3:
+            cells.append(gen.random_cell(rnd, a5, rnd.randint(max(0, t - 4), r)))
     if rnd.random() < 0.1:
         cells = tuple(cells)
     return cells, t
